@@ -626,8 +626,8 @@ func (p NewChannelReqPayload) MarshalBinary() ([]byte, error) {
 	if freq/100 >= 16777216 { // 2^24
 		return b, errors.New("lorawan: max value of Freq is 2^24 - 1")
 	}
-	if p.Freq%100 != 0 {
-		return b, errors.New("lorawan: Freq must be a multiple of 100")
+	if freq%100 != 0 {
+		return b, errors.New("lorawan: Freq must be a multiple of 100 (200 for 2.4GHz frequencies)")
 	}
 	if p.MaxDR > 15 {
 		return b, errors.New("lorawan: max value of MaxDR is 15")
